@@ -126,6 +126,47 @@ def check_validator(R, name, spec, by_raise):
     decide(f'{name}: spec ⊆ accepted', strlang.difference(spec, acc), 'rejects-spec-string')
 
 
+def _rebound_witness(fn):
+    """Concrete confirmation on the real check_valid_new_user (compiled from its AST node, real is_valid_username, the user
+    lookup answering "no such user"): an invalid username (by the real validator) that the function accepts."""
+    import asyncio
+    loader.install()
+    mod = importlib.import_module('auth.auth_utils')
+    valid = mod.is_valid_username
+
+    class _Exc(Exception):
+        def __init__(self, *a, **k):
+            super().__init__(*a)
+
+    class _NS(dict):
+        def __missing__(self, k):
+            import builtins
+            if hasattr(builtins, k):
+                return getattr(builtins, k)
+            return _Exc
+
+    async def lookup(tx, username, login_id):
+        return []
+    ns = _NS(is_valid_username=valid, users_with_username_or_login_id=lookup)
+    f2 = ast.AsyncFunctionDef(name=fn.name, args=fn.args, body=fn.body, decorator_list=[], returns=None, type_comment=None,
+                              type_params=[])
+    for a in f2.args.args + f2.args.kwonlyargs:
+        a.annotation = None
+    m = ast.fix_missing_locations(ast.Module(body=[f2], type_ignores=[]))
+    exec(compile(m, '<check_valid_new_user>', 'exec'), ns)
+    wraps = ['\n', ' ', '\t', '\r\n', '\x1f', '\u2028', '\xa0', '\x00']
+    cands = [c for w_ in wraps for c in ('abc' + w_, w_ + 'abc', 'ABC' if w_ == ' ' else 'abc' + w_ + w_)] + ['ABC', 'Abc', 'abc.', '.abc', 'a--b']
+    for c in cands:
+        if valid(c):
+            continue
+        try:
+            asyncio.run(ns[fn.name](None, c, 'login', False, False))
+        except Exception:
+            continue
+        return c
+    return None
+
+
 def check_call_sites(R):
     text = loader.read(AUTH)
     tree = ast.parse(text)
@@ -138,6 +179,23 @@ def check_call_sites(R):
     if not ev:
         raise HarnessError('check_valid_new_user no longer calls users_with_username_or_login_id')
     atom = w.atoms.get('is_valid_username(username)')
+    # the atom must speak about the CALLER's value: if the parameter is re-bound before the lookup, the value that was
+    # validated is not the one the caller (insert_new_user) goes on to store
+    rebound = [ln for (nm, ln) in w.stores if nm == 'username' and ln < min(n.lineno for n, _ in ev)]
+    if rebound:
+        bad = _rebound_witness(fn)
+        label = 'check_valid_new_user: the validated value is the caller\'s username (parameter not re-bound before validation)'
+        if bad is None:
+            R.ob(label, 'not_discharged', time.time() - t, f'username re-bound at line {rebound[0]}; no concrete witness reproduced')
+        else:
+            st = R.finding('new-user-check-validates-a-rebound-value',
+                           f'check_valid_new_user accepts username {bad!r} (re-bound at line {rebound[0]} before validation) although '
+                           f'is_valid_username({bad!r}) is False; insert_new_user stores the original value',
+                           {'file': AUTH, 'function': 'check_valid_new_user', 'line': rebound[0], 'kind': 'rebound', 'username': bad})
+            R.ob(label, st, time.time() - t, nontrivial=True)
+    else:
+        R.ob('check_valid_new_user: the validated value is the caller\'s username (parameter not re-bound before validation)',
+             'discharged', time.time() - t, nontrivial=True)
     for node, pc in ev:
         if not pathsym.reachable(pc):
             raise HarnessError('call site unreachable (vacuous)')
@@ -229,6 +287,11 @@ def run(R):
 def replay(path):
     d = json.load(open(path))
     rp = d['replay']
+    if rp.get('kind') == 'rebound':
+        text = loader.read(AUTH)
+        bad = _rebound_witness(pathsym.find_function(ast.parse(text), 'check_valid_new_user'))
+        print('check_valid_new_user accepts invalid username:', repr(bad))
+        return 1 if bad is not None else 0
     if 'arg' not in rp:
         print('structural finding:', d['what'])
         return 1
